@@ -39,17 +39,18 @@ func removeTwoNodeCycles(g *graph.DGraph) {
 	type pair [2]*graph.Node
 
 	seen := map[pair]bool{}
-	rev := graph.EdgeSet{}
+	var rev []*graph.Edge
 
 	for _, e := range g.Edges {
 		a, b := e.From, e.To
-		if seen[pair{a, b}] || seen[pair{b, a}] {
-			rev[e] = true
+		// only an edge that closes a two-node cycle is reversed; a parallel copy of an edge seen before is left alone
+		if seen[pair{b, a}] {
+			rev = append(rev, e)
 		} else {
 			seen[pair{a, b}] = true
 		}
 	}
-	for e := range rev {
+	for _, e := range rev {
 		e.Reverse()
 	}
 }
